@@ -11,6 +11,7 @@ import (
 	"path/filepath"
 	"reflect"
 	"sort"
+	"strings"
 
 	anko "github.com/mattn/anko/ast"
 )
@@ -57,62 +58,69 @@ var astKindIndex = map[reflect.Type]int{}
 
 func init() {
 	for _, p := range astNodeProtos {
-		t := reflect.TypeOf(p).Elem()
-		k := astKind{Name: t.Name(), Type: t}
-		for i := 0; i < t.NumField(); i++ {
-			f := t.Field(i)
-			if f.Anonymous {
-				switch f.Type.Name() {
-				case "StmtImpl":
-					k.Class = "Stmt"
-				case "ExprImpl":
-					k.Class = "Expr"
-				case "OperatorImpl":
-					k.Class = "Operator"
-				}
-				continue
-			}
-			ft := f.Type
-			slice := false
-			if ft.Kind() == reflect.Slice {
-				ft = ft.Elem()
-				slice = true
-			}
-			if ft.Kind() != reflect.Interface {
-				continue
-			}
-			cls := ""
-			switch ft {
-			case exprIface:
-				cls = "Expr"
-			case stmtIface:
-				cls = "Stmt"
-			case opIface:
-				cls = "Operator"
-			}
-			// Expr, Stmt and Operator are the same interface (Pos); the declared name decides
-			if cls == "" {
-				continue
-			}
-			k.Fields = append(k.Fields, astField{Name: f.Name, Index: i, Class: declaredClass(t.Name(), f.Name, cls), Slice: slice})
-		}
-		astKindIndex[t] = len(astKinds)
-		astKinds = append(astKinds, k)
+		astRegister(reflect.TypeOf(p).Elem())
 	}
 }
 
-// the three node interfaces have identical method sets, so reflect cannot tell
-// Expr from Stmt from Operator; the declared type name is read from the source
-var declaredClasses map[string]string
+// astRegister adds a node struct type of package ast to the kind table (also used for
+// node types that are not in astNodeProtos but turn up in parsed trees).
+func astRegister(t reflect.Type) int {
+	if k, ok := astKindIndex[t]; ok {
+		return k
+	}
+	k := astKind{Name: t.Name(), Type: t}
+	for i := 0; i < t.NumField(); i++ {
+		f := t.Field(i)
+		if f.Anonymous {
+			switch f.Type.Name() {
+			case "StmtImpl":
+				k.Class = "Stmt"
+			case "ExprImpl":
+				k.Class = "Expr"
+			case "OperatorImpl":
+				k.Class = "Operator"
+			}
+			continue
+		}
+		ft := f.Type
+		slice := false
+		if ft.Kind() == reflect.Slice {
+			ft = ft.Elem()
+			slice = true
+		}
+		if ft.Kind() != reflect.Interface {
+			continue
+		}
+		cls := ""
+		switch ft {
+		case exprIface:
+			cls = "Expr"
+		case stmtIface:
+			cls = "Stmt"
+		case opIface:
+			cls = "Operator"
+		}
+		if cls == "" {
+			continue
+		}
+		k.Fields = append(k.Fields, astField{Name: f.Name, Index: i, Class: cls, Slice: slice})
+	}
+	astKindIndex[t] = len(astKinds)
+	astKinds = append(astKinds, k)
+	return len(astKinds) - 1
+}
 
-func declaredClass(typ, field, fallback string) string {
-	if declaredClasses == nil {
-		return fallback
+func isAstNodeType(t reflect.Type) bool {
+	if t.Kind() != reflect.Struct || !strings.HasSuffix(t.PkgPath(), "/ast") {
+		return false
 	}
-	if c, ok := declaredClasses[typ+"."+field]; ok {
-		return c
+	for i := 0; i < t.NumField(); i++ {
+		f := t.Field(i)
+		if f.Anonymous && (f.Type.Name() == "StmtImpl" || f.Type.Name() == "ExprImpl" || f.Type.Name() == "OperatorImpl") {
+			return true
+		}
 	}
-	return fallback
+	return false
 }
 
 // astSourceKinds parses <repo>/ast/*.go and returns, for every struct type that
@@ -189,7 +197,10 @@ func astChildren(n interface{}) (kind int, groups [][]interface{}) {
 	}
 	k, ok := astKindIndex[v.Type().Elem()]
 	if !ok {
-		return -1, nil
+		if !isAstNodeType(v.Type().Elem()) {
+			return -1, nil
+		}
+		k = astRegister(v.Type().Elem())
 	}
 	s := v.Elem()
 	for _, f := range astKinds[k].Fields {
